@@ -22,7 +22,8 @@ from machines.common import (DOC_FILE, PDOC_FILE, SP_FILE, cid, norm, quiet, raw
 from model import sync_ref
 from simcore.driver import EngineBase, generic_shrink
 from simcore.sched import SimPool, install_locks, install_pools
-from simcore.world import MUTATING, O, SimWorld, snapshot
+from simcore.faultenum import run_op
+from simcore.world import MUTATING, FaultPlan, O, SimWorld, restore, snapshot
 
 FILES = ["f1", "f2", "x.log", "sub/g", "sub/x.log", "sub/deep/h"]
 T0 = 1_000_000_000_000  # ms
@@ -190,6 +191,11 @@ class Engine(EngineBase):
             opts["selection"] = None
         if src_jobs and rng.random() < 0.35:
             opts["selection"] = sorted(rng.sample(sorted(src_jobs), rng.randrange(0, len(src_jobs) + 1)))
+        precrash = None
+        if P in ("C13", "C14") and not opts["dry_run"] and not opts["parallel"] and rng.random() < 0.2:
+            # debris of an earlier, crashed run of the same sync: [position in its trace, prefer the
+            # document window?]
+            precrash = [rng.random(), rng.random() < 0.6]
         entry = rng.choice(["Project.sync", "Project.sync", "sync_projects", "Job.sync", "sync_jobs"])
         pair = None
         if entry in ("Job.sync", "sync_jobs"):
@@ -199,7 +205,7 @@ class Engine(EngineBase):
             else:
                 pair = rng.choice(cands)
         return {"knobs": knobs, "src": {"doc": spd, "jobs": src_jobs}, "dst": {"doc": dpd, "jobs": dst_jobs},
-                "opts": opts, "entry": entry, "pair": pair}
+                "opts": opts, "entry": entry, "pair": pair, "precrash": precrash}
 
     def shrink(self, scenario):
         for side in ("src", "dst"):
@@ -442,6 +448,8 @@ class Run:
         sp_, dp_ = world.p("src"), world.p("dst")
         build_project(signac, sp_, sc["src"])
         build_project(signac, dp_, sc["dst"])
+        if sc.get("precrash") is not None and not self.precrash(sp_, dp_, o):
+            return
         ms, md = project_model(sp_), project_model(dp_)
         snap_s0 = snapshot(sp_, mtimes=True)
         snap_d0 = snapshot(dp_, mtimes=True)
@@ -548,6 +556,47 @@ class Run:
                        f"(sequential raised {type(exc_seq).__name__ if exc_seq else None})")
 
     # ------------------------------------------------------------------
+    def precrash(self, sp_, dp_, o):
+        """An earlier run of the same sync died at a seeded point of its trace; the scenario's sync then
+        starts from whatever that left behind (half-copied files, a document backup file).  Returns False
+        when the debris is outside what the sync properties speak about (a job without state point)."""
+        world = self.world
+        frac, prefer_doc = self.sc["precrash"]
+        pre = snapshot(world.root, mtimes=True)
+        src0 = snapshot(sp_, mtimes=True)
+        status, info = run_op(world, lambda: self.call(sp_, dp_, o), FaultPlan(), timeout=50.0)
+        with world.observing():
+            restore(world.root, pre)
+        if status != "ok":
+            raise RuntimeError(f"pre-crash trace run ended with {status}: {str(info)[-300:]}")
+        steps = [t for t in info["trace"] if t[1] in MUTATING]
+        docsteps = [t for t in steps if any(str(x or "").endswith(("~", DOC_FILE, PDOC_FILE)) for x in (t[2], t[3]))]
+        pool = docsteps if (prefer_doc and docsteps) else steps
+        if not pool:
+            self.probe("precrash_nothing_to_interrupt")
+            return True
+        k = pool[min(len(pool) - 1, int(frac * len(pool)))][0]
+        status, info = run_op(world, lambda: self.call(sp_, dp_, o), FaultPlan([{"step": k, "kind": "crash"}]),
+                              timeout=50.0)
+        if status != "crash":
+            raise RuntimeError(f"pre-crash run did not die at step {k}: {status}")
+        world.clock_ms = max(world.clock_ms, info.get("clock_ms", 0))
+        world.new_incarnation("after-crash")
+        self.probe("precrash")
+        self.res["stats"]["faults"]["crash"] = self.res["stats"]["faults"].get("crash", 0) + 1
+        with world.observing():
+            if snapshot(sp_, mtimes=True) != src0:
+                self.v("C13", "C13:source-changed", "a sync that died half-way changed the source project: "
+                       f"{self.sdiff(src0, snapshot(sp_, mtimes=True))}", "C13:source-changed:by-crashed-sync")
+                return False
+            md = project_model(dp_)
+        if any(j["sp_status"] != "ok" for j in md["jobs"].values()):
+            self.probe("precrash_left_job_without_statepoint")
+            return False
+        if any(r.endswith("~") for r in snapshot(dp_)):
+            self.probe("precrash_left_backup_file")
+        return True
+
     def dry_kind(self, a, b):
         added = [r for r in b if r not in a]
         changed = [r for r in b if r in a and a[r][:2] != b[r][:2]]
